@@ -388,6 +388,15 @@ func guardsOfRaw(b *ssa.BasicBlock) []guard {
 type cmpFact struct {
 	op   token.Token
 	x, y ssa.Value
+	via  *ssa.Call // the tiny boolean helper whose body the comparison comes from (x, y live in ITS frame), or nil
+}
+
+// env: the provenance environment in which x and y are to be read (maps the helper's parameters to the call's arguments).
+func (cf cmpFact) env() provEnv {
+	if cf.via == nil {
+		return provEnv{}
+	}
+	return provEnv{chain: []*ssa.Call{cf.via}}
 }
 
 // asCmp decomposes a guard into a comparison known to be true (negating the operator for a false edge).
@@ -403,9 +412,11 @@ func (g guard) asCmp() (cmpFact, bool) {
 		break
 	}
 	b, ok := v.(*ssa.BinOp)
+	var via *ssa.Call
 	if !ok {
 		if hb, isHelper := boolHelperCmp(v); isHelper {
 			b, ok = hb, true
+			via, _ = v.(*ssa.Call)
 		}
 	}
 	if !ok {
@@ -420,7 +431,7 @@ func (g guard) asCmp() (cmpFact, bool) {
 	if !val {
 		op = negate(op)
 	}
-	return cmpFact{op, b.X, b.Y}, true
+	return cmpFact{op, b.X, b.Y, via}, true
 }
 
 func negate(op token.Token) token.Token {
